@@ -41,14 +41,17 @@ Fixpoint all_pairs_ok (l : list (order * Z)) : bool :=
 (* ---- data ---- *)
 Record ratom := { ra_key : Z; ra_name : string; ra_resname : string }.
 Record mnode := { mn_key : Z; mn_resid : Z; mn_atoms : list ratom }.
-Record meta := { m_nodes : list mnode; m_edges : list (Z * Z) }.
+(* m_labels: the 'linktype' attribute of the residue-graph edges that carry one *)
+Record meta := { m_nodes : list mnode; m_edges : list (Z * Z); m_labels : list (Z * Z * string) }.
 
 Record latom := { la_key : string; la_name : string; la_order : order; la_resnames : list string;
                   la_replace : list (string * string) }.
 Record linter := { li_sec : string; li_atoms : list string; li_params : list string; li_version : Z;
                    li_meta : list (string * string) }.
+(* l_res_labels: the 'linktype' attribute of the edges of the link's residue graph that carry one *)
 Record link := { l_atoms : list latom; l_inters : list linter; l_edges : list (string * string);
-                 l_res_nodes : list order; l_res_edges : list (order * order) }.
+                 l_res_nodes : list order; l_res_edges : list (order * order);
+                 l_res_labels : list (order * order * string) }.
 
 Definition ikey := (string * list Z * Z)%type.               (* section, atoms, version *)
 Definition ival := (list string * list (string * string))%type. (* parameters, meta *)
@@ -80,6 +83,26 @@ Definition has_medge (g : meta) (a b : Z) : bool :=
 Definition has_ledge (l : link) (a b : order) : bool :=
   existsb (fun e => (order_eqb (fst e) a && order_eqb (snd e) b) || (order_eqb (fst e) b && order_eqb (snd e) a)) (l_res_edges l).
 
+(* edge labels (_linktype_match: attrs.get('linktype') == attrs.get('linktype'), None = no label) *)
+Fixpoint mlabel_in (ls : list (Z * Z * string)) (a b : Z) : option string :=
+  match ls with
+  | [] => None
+  | (x, y, s) :: r => if ((x =? a) && (y =? b)) || ((x =? b) && (y =? a)) then Some s else mlabel_in r a b
+  end.
+Definition mlabel (g : meta) (a b : Z) : option string := mlabel_in (m_labels g) a b.
+Fixpoint llabel_in (ls : list (order * order * string)) (a b : order) : option string :=
+  match ls with
+  | [] => None
+  | (x, y, s) :: r => if (order_eqb x a && order_eqb y b) || (order_eqb x b && order_eqb y a) then Some s else llabel_in r a b
+  end.
+Definition llabel (l : link) (a b : order) : option string := llabel_in (l_res_labels l) a b.
+Definition olabel_eqb (a b : option string) : bool :=
+  match a, b with
+  | None, None => true
+  | Some x, Some y => String.eqb x y
+  | _, _ => false
+  end.
+
 (* all injective assignments of the link's residues to nodes of the molecule *)
 Fixpoint assignments (orders : list order) (nodes : list Z) : list (list (order * Z)) :=
   match orders with
@@ -91,7 +114,10 @@ Fixpoint assignments (orders : list order) (nodes : list Z) : list (list (order 
 
 Definition induced_ok (g : meta) (l : link) (mu : list (order * Z)) : bool :=
   forallb (fun p => forallb (fun q => if order_eqb (fst p) (fst q) then true
-                                      else Bool.eqb (has_ledge l (fst p) (fst q)) (has_medge g (snd p) (snd q))) mu) mu.
+                                      else Bool.eqb (has_ledge l (fst p) (fst q)) (has_medge g (snd p) (snd q)) &&
+                                           (if has_ledge l (fst p) (fst q)
+                                            then olabel_eqb (llabel l (fst p) (fst q)) (mlabel g (snd p) (snd q))
+                                            else true)) mu) mu.
 
 Fixpoint find_mnode (ns : list mnode) (k : Z) : option mnode :=
   match ns with [] => None | n :: r => if mn_key n =? k then Some n else find_mnode r k end.
